@@ -458,10 +458,12 @@ def cc(prog):
     fn = prog.find1(name="compile_cnf_with_assignments", in_trait="builder::bdd::builder::BddBuilder", unit="rsdd-lib")
     te = fn.terms
     errs = []
-    ops = [cs.callee.name for cs in te.calls if cs.callee.name in ("and", "or", "xor", "iff") and (cs.callee.trait or "").startswith("builder")]
+    # the clause may be built in a closure of the function (`let compile_clause = |clause| ..`)
+    allcalls = [cs for g in [fn] + [g for g in prog.lib_fns if g.npath.startswith(fn.npath + "::{closure")] for cs in g.terms.calls]
+    ops = [cs.callee.name for cs in allcalls if cs.callee.name in ("and", "or", "xor", "iff") and (cs.callee.trait or "").startswith("builder")]
     if sorted(ops) != ["and", "or"]:
-        errs.append("expected one `or` (clause) and one `and` (heap merge), found %s" % ops)
-    for cs in te.calls:
+        errs.append("%sexpected one `or` (clause) and one `and` (heap merge), found %s" % ("?" if set(ops) <= {"and", "or"} else "", ops))
+    for cs in allcalls:
         if cs.callee.name == "and" and (cs.callee.trait or "").startswith("builder"):
             if not all("pop(" in show(a) for a in cs.args[1:]):
                 errs.append("and() does not merge the two popped heap entries")
